@@ -15,10 +15,40 @@ RULE = ("structured random cases per generator (all 8 numbers-vs-streams combina
         "steps zero / negative / multiples of the modulo, constant and time-varying modulo, durations "
         "integer / fractional / 0 / inf); a case is non-trivial when the impl yields at least one sample; "
         "distinct = distinct JSON case")
-TRUSTED = ["hand-written Lean model ALV/Model/C19.lean of lazy_synth generators "
-           "(modelled, not verified: Python's %, int(), zip, generator protocol, float arithmetic in the exact dyadic regime)"]
-ASSUMPTIONS = ["modulo_counter: float arguments are dyadic rationals of bounded size (binary floating point exact); "
-               "non-dyadic rationals only as Fractions in the branches that keep them exact (start not iterable)"]
+TRUSTED = [
+    "hand-written Lean model ALV/Model/C19.lean of lazy_synth (modulo_counter, line, fades, ones, zeros, impulse, "
+    "adsr, attack, TableLookup call/getitem/operators/normalize/harmonize, sinusoid, karplus_strong, noise durations) "
+    "and lazy_poly.resample + lagrange.func (modelled, not verified: Python's %, int(), math.ceil, zip, deque(maxlen), "
+    "negative list indices, the generator protocol, PEP 479)",
+    "float arithmetic of the impl is compared exactly only in the dyadic regime (all intermediate values exactly "
+    "representable) and within 1e-9 relative elsewhere; sin / 2*pi / e**x values are computed by the harness with the "
+    "same Python expressions as the code (TableLookup: cycles*2*pi; karplus_strong: 2*pi/freq, e**(-delay/tau)) and by "
+    "Lean's Float.sin for the sinusoid",
+    "karplus_strong: only lazy_synth's composition and the linearised comb recursion are modelled; the generated "
+    "filter loop of lazy_filters is property C04's subject",
+    "noise generators: duration and value range only (random values are not modelled)",
+]
+ASSUMPTIONS = [
+    "modulo_counter: float arguments are dyadic rationals of bounded size (binary floating point exact); non-dyadic "
+    "rationals only as Fractions in the branches that keep them exact (start not iterable); modulo = 0 is checked "
+    "to raise ZeroDivisionError at the first output that needs it",
+    "durations / envelope times are >= 0 or small negatives (no -inf); attack's sustain stream is not empty",
+    "TableLookup: freq / phase are numbers or Streams (plain lists cannot be multiplied by a float); the table is not empty",
+    "resample: steps old/new >= 0 (theorem hypothesis and generator), new != 0, orders 0..5; in the float regime the "
+    "steps are dyadic so that the window decisions (idx > threshold) are exact",
+    "TableLookup operators: scalars are int / float (the code rejects other numeric types); normalize on int/float tables",
+]
+MANIFEST = {
+    "text": "37 Lean 4 theorems over any linearly ordered field with a floor (Q, R): every branch and fast path of "
+            "modulo_counter = recursive spec = closed form (constant modulo), range, length; line/fades/ones/zeros/"
+            "impulse/adsr/attack shapes and durations; TableLookup = cyclic linear interpolation of the unreduced "
+            "position; sinusoid = sin(phase + k freq) over R; karplus_strong shift register = recursion; resample "
+            "generator loop = order-p Lagrange interpolation at m*old/new on the zero-extended input, ending with "
+            "its input; tied to /repo by a differential correspondence (exact in the dyadic / Fraction regime)",
+    "note": "Trusted: Lean kernel, axioms propext/Classical.choice/Quot.sound, the Python harness; the model is hand "
+            "written and validated against the code differentially. Known genuine defects D6, D8, D14, D15 are "
+            "reported as KNOWN-FINDING with proposed fixes under proposed_fixes/.",
+}
 
 F = Fraction
 
